@@ -64,8 +64,18 @@ def compare_modes(runs, pr, pq, params, cm):
             rows = {id(r): r for r in (runs['separate'].rows or [])}
             multi = any(len([sg for sg in r.segments if sg.positions]) > 1 for r in (runs['separate'].rows or []) if r.queryId == q) or \
                 any(len([sg for sg in row.segments if sg.positions]) > 1 for row, _, _, _ in runs['separate'].candidates.get(q, []) if row.alignedRest)
+            # K4: one part lies inside the other on the reference (the later-starting part ends before the earlier one does): the equal-
+            # index cut removes the earlier part's tail from the cut to its END, i.e. also its pairs beyond the nested part.  Classified
+            # from the two single-pass records alone: the missing pairs are exactly pairs of the enclosing part beyond the nested one.
+            fp, sp_ = f['_pairs'], s['_pairs']
+            early, late = (fp, sp_) if (fp and sp_ and fp[0][0] <= sp_[0][0]) else (sp_, fp)
+            missing = set(union) - set(jp)
+            nested = bool(early and late) and max(r for r, _ in late) < max(r for r, _ in early) and \
+                all(m in set(early) and m[0] > max(r for r, _ in late) for m in missing)
+            mech = 'K3:only_first_segment_of_each_part_is_joined' if multi else \
+                ('K4:nested_part_costs_the_enclosing_part_its_tail' if nested else None)
             v.append((f"{JOIN}::monitor::C08::joined_record_is_exactly_the_union_when_the_union_is_a_valid_matching",
-                      'K3:only_first_segment_of_each_part_is_joined' if multi else None,
+                      mech,
                       dict(query=q, union=len(union), joined=len(jp), missing=sorted(set(union) - set(jp))[:10])))
     return v
 
